@@ -3,6 +3,7 @@ package main
 import (
 	"encoding/json"
 	"fmt"
+	"strings"
 	"time"
 
 	"github.com/ohler55/slip"
@@ -10,55 +11,179 @@ import (
 	"verifharness/internal/h"
 )
 
-// C17: producers / consumers over one channel. Stimulus:
+// C17: replay of a schedule printed by Conc.tla. Stimulus:
 //
-//	{"id":1,"producers":3,"consumers":2,"items":20,"cap":2}
+//	{"id":1,"nprod":1,"ncons":1,"items":2,"incs":1,"cap":1,"sched":[[1,1],[2,2],...]}
 //
-// Events (one run = one trace): {"t","seq","ph":"inv"|"res","id":op id,"op":"push"|"pop","v":[producer,index] or []}
-// logged by (vlog ...) under the harness mutex, i.e. inside the real-time interval of each operation.
+// Every operation of every routine waits at a gate (vgate p) and reports its completion (vdone p op value). A step
+// [p, n] opens the gate of routine p and collects the completions that follow: n are expected (0: the operation
+// must block), the harness waits for them and a little longer for completions nobody expects.
+// Event: {"id","sched","steps":[{"p":1,"done":[{"p":1,"op":"push","v":[]}]}, ...],"final":{"x":2,"free":true,"ended":2}}
 func init() { drivers["c17"] = c17 }
 
 type c17Stim struct {
-	ID        int `json:"id"`
-	Producers int `json:"producers"`
-	Consumers int `json:"consumers"`
-	Items     int `json:"items"`
-	Cap       int `json:"cap"`
+	ID    int     `json:"id"`
+	NProd int     `json:"nprod"`
+	NCons int     `json:"ncons"`
+	Items int     `json:"items"`
+	Incs  int     `json:"incs"`
+	Cap   int     `json:"cap"`
+	Sel   bool    `json:"sel"`
+	Sched [][]int `json:"sched"`
+}
+
+type c17Done struct {
+	P  int    `json:"p"`
+	Op string `json:"op"`
+	V  []int  `json:"v"`
+}
+
+var (
+	c17Gates []chan struct{}
+	c17Dones chan c17Done
+)
+
+func c17Program(st *c17Stim, p int) string {
+	var b strings.Builder
+	// no binding form around the routine: it runs directly in the scope it shares with the others
+	b.WriteString("(run (progn ")
+	if p <= st.NProd {
+		for i := 1; i <= st.Items; i++ {
+			fmt.Fprintf(&b, "(vgate %d) (channel-push ch (list %d %d)) (vdone %d 'push nil) ", p, p, i, p)
+		}
+	} else {
+		for i := 0; i < st.NProd*st.Items/st.NCons; i++ {
+			if st.Sel {
+				// the value is used one gate after it was received
+				fmt.Fprintf(&b, "(vgate %d) (select (ch v (vdone %d 'pop nil) (vgate %d) (vdone %d 'use v))) ", p, p, p, p)
+			} else {
+				fmt.Fprintf(&b, "(vgate %d) (let ((v (channel-pop ch))) (vdone %d 'pop v)) ", p, p)
+			}
+		}
+	}
+	for i := 1; i <= st.Incs; i++ {
+		exit := []string{"nil", `(error "leaving the lock by an error")`, "(return-from blk nil)"}[(p+i)%3]
+		fmt.Fprintf(&b, "(vgate %d) (ignore-errors (block blk (with-mutex-lock mu (vdone %d 'lock nil) "+
+			"(vgate %d) (setq tmp%d xcnt) (vdone %d 'read (list tmp%d)) "+
+			"(vgate %d) (setq xcnt (+ tmp%d 1)) (vdone %d 'write (list xcnt)) "+
+			"(vgate %d) %s))) (vdone %d 'unlock nil) ", p, p, p, p, p, p, p, p, p, p, exit, p)
+	}
+	fmt.Fprintf(&b, "(vdone %d 'end nil)))", p)
+	return b.String()
 }
 
 func c17(args []string) {
 	out := h.NewOut()
 	defer out.Flush()
-	cur := 0
-	h.Define("vlog", func(s *slip.Scope, a slip.List, depth int) slip.Object {
-		ev := h.V{"t": cur, "ph": string(a[0].(slip.Symbol)), "id": int(a[1].(slip.Fixnum)), "op": string(a[2].(slip.Symbol)), "v": []int{}}
-		if 3 < len(a) {
-			if l, ok := a[3].(slip.List); ok && len(l) == 2 {
-				ev["v"] = []int{int(l[0].(slip.Fixnum)), int(l[1].(slip.Fixnum))}
-			}
-		}
-		out.Emit(ev)
+	h.Define("vgate", func(s *slip.Scope, a slip.List, depth int) slip.Object {
+		<-c17Gates[int(a[0].(slip.Fixnum))]
 		return nil
 	})
-	s := slip.NewScope()
+	h.Define("vdone", func(s *slip.Scope, a slip.List, depth int) slip.Object {
+		d := c17Done{P: int(a[0].(slip.Fixnum)), Op: string(a[1].(slip.Symbol)), V: []int{}}
+		if l, ok := a[2].(slip.List); ok {
+			for _, e := range l {
+				if f, isf := e.(slip.Fixnum); isf {
+					d.V = append(d.V, int(f))
+				}
+			}
+		}
+		c17Dones <- d
+		return nil
+	})
 	h.Lines(func(line []byte) {
 		var st c17Stim
 		if err := json.Unmarshal(line, &st); err != nil {
 			panic(err)
 		}
-		cur = st.ID
-		h.Eval(s, fmt.Sprintf("(setq ch (make-channel %d)) (setq done (make-channel 100))", st.Cap))
-		total := st.Producers * st.Items
-		per := total / st.Consumers
-		for p := 1; p <= st.Producers; p++ {
-			h.Eval(s, fmt.Sprintf(`(run (progn (dotimes (i %d) (let ((id (+ %d i))) (vlog 'inv id 'push (list %d i)) (channel-push ch (list %d i)) (vlog 'res id 'push))) (channel-push done 1)))`, st.Items, p*1000, p, p))
+		n := st.NProd + st.NCons
+		c17Gates = make([]chan struct{}, n+1)
+		for i := range c17Gates {
+			c17Gates[i] = make(chan struct{})
 		}
-		for c := 1; c <= st.Consumers; c++ {
-			h.Eval(s, fmt.Sprintf(`(run (progn (dotimes (i %d) (let ((id (+ %d i))) (vlog 'inv id 'pop) (let ((x (channel-pop ch))) (vlog 'res id 'pop x)))) (channel-push done 1)))`, per, 100000+c*1000))
+		c17Dones = make(chan c17Done, 1000)
+		s := slip.NewScope()
+		if o := h.Eval(s, fmt.Sprintf("(setq ch (make-channel %d)) (setq mu (make-mutex)) (setq xcnt 0)", st.Cap)); !o.OK() {
+			panic(o.Msg)
 		}
-		for i := 0; i < st.Producers+st.Consumers; i++ {
-			h.Eval(s, "(channel-pop done)")
+		for p := 1; p <= n; p++ {
+			if o := h.Eval(s, c17Program(&st, p)); !o.OK() {
+				panic(o.Msg)
+			}
 		}
-		time.Sleep(5 * time.Millisecond)
+		ended := 0
+		steps := []h.V{}
+		collect := func(expect int) []c17Done {
+			got := []c17Done{}
+			deadline := time.After(3 * time.Second)
+			for len(got) < expect {
+				select {
+				case d := <-c17Dones:
+					if d.Op == "end" {
+						ended++
+						continue
+					}
+					got = append(got, d)
+				case <-deadline:
+					return got
+				}
+			}
+			// completions nobody expects: a short wait (longer when the operation is expected to block)
+			grace := 2 * time.Millisecond
+			if expect == 0 {
+				grace = 15 * time.Millisecond
+			}
+			quiet := time.After(grace)
+			for {
+				select {
+				case d := <-c17Dones:
+					if d.Op == "end" {
+						ended++
+						continue
+					}
+					got = append(got, d)
+				case <-quiet:
+					return got
+				}
+			}
+		}
+		stuck := false
+		for _, stp := range st.Sched {
+			p, expect := stp[0], stp[1]
+			select {
+			case c17Gates[p] <- struct{}{}:
+			case <-time.After(3 * time.Second):
+				stuck = true // the routine is not at its gate
+			}
+			steps = append(steps, h.V{"p": p, "done": collect(expect)})
+			if stuck {
+				break
+			}
+		}
+		// the routines end after their last operation
+		for deadline := time.After(2 * time.Second); ended < n && !stuck; {
+			select {
+			case d := <-c17Dones:
+				if d.Op == "end" {
+					ended++
+				}
+			case <-deadline:
+				stuck = true
+			}
+		}
+		final := h.V{"x": -1, "free": false, "ended": ended}
+		if o := h.Eval(s, "xcnt"); o.OK() {
+			if f, ok := o.Val.(slip.Fixnum); ok {
+				final["x"] = int(f)
+			}
+		}
+		free := make(chan bool, 1)
+		go func() { free <- h.Eval(s, "(with-mutex-lock mu t)").OK() }()
+		select {
+		case ok := <-free:
+			final["free"] = ok
+		case <-time.After(time.Second):
+		}
+		out.Emit(h.V{"id": st.ID, "sched": st.Sched, "steps": steps, "final": final, "stuck": stuck})
 	})
 }
